@@ -212,7 +212,16 @@ def run(facts, chk, tier, only=None):
         if len(rng) != 1:
             raise AnchorLost('distance closure: %d Range constructions' % len(rng))
         lo = affine(eb.operand(rng[0].rv.ops[0]), atom_of=lambda e: e[2] if e[0] in ('var', 'arg') else show(e))
-        hi = show(eb.operand(rng[0].rv.ops[1]))
+        hi_e = eb.operand(rng[0].rv.ops[1])
+        hi = show(hi_e)
+        # the bound hoisted into a local of `distance` and captured (round 12, m1_4): read the captured variable's definition there
+        while hi_e[0] == 'deref':
+            hi_e = hi_e[1]
+        if hi_e[0] == 'upvar':
+            par = facts.fn(MSA + '::distance')
+            defs = [show(ExprBuilder(par).local_expr(l)) for l in par.locals_named(hi_e[2])]
+            if len(defs) == 1:
+                hi = '%s = %s' % (hi_e[2], defs[0])
         res.append(('inner-range', lo == ({'i': 1}, 1) and 'ncols' in hi, 'j in %s..%s' % (show(eb.operand(rng[0].rv.ops[0])), hi)))
         # the second operand of variant_dist is column j of the same array
         vd = [t for _, t in c.calls() if (t.callee.name or '').endswith('::variant_dist')][0]
